@@ -97,7 +97,7 @@ def hbfreeze_programs(tier, seed):
     return out
 
 
-def freeze_sweep(profile, nb, kmax, tag):
+def freeze_sweep(profile, nb, kmax, tag, victims=None):
     """programs_fn: base programs of a profile, each re-run with one process frozen before its k-th hook, k = 1..kmax"""
     def fn(tier, seed):
         rng = random.Random("%s/%d" % (tag, seed))
@@ -107,7 +107,7 @@ def freeze_sweep(profile, nb, kmax, tag):
             base = gen.gen_program(rng, profile)
             if len(base["procs"]) < 2:
                 continue
-            victim = rng.randrange(len(base["procs"]))
+            victim = rng.choice(victims) if victims else rng.randrange(len(base["procs"]))
             for k in range(1, km + 1):
                 p = json.loads(json.dumps(base))
                 st = dict(p.get("strat", {}))
@@ -128,9 +128,11 @@ PLANS = {
     "C02": dict(mc=MC("sync", "mixed", thorough=["t_sync"], bounded=["t_sync4"]), spec_l2l1=True, runs=[R("chain_s", (250, 4000), (3, 6), "C02", True), R("fifo", (250, 5000), (4, 8), "C02"), R("general", (150, 2000), (3, 5), "C02")]),
     "C03": dict(mc=MC("mixed", "async", thorough=["t_async"], bounded=["t_mixed"]) + MCA("2p"), spec_replay=True, spec_l1l0=True, spec_l2l1=True, runs=[R("general", (400, 8000), (3, 6), None, True), R("sync", (150, 2000), (3, 6), None, True),
                       R("async", (150, 3000), (3, 6), None, True), R("timed", (150, 3000), (3, 6), None, True),
-                      R("chain", (150, 3000), (2, 6), None, True), R("close", (200, 3000), (3, 6), None, True)]),
+                      R("chain", (150, 3000), (2, 6), None, True), R("close", (200, 3000), (3, 6), None, True),
+                      R("pairsweep", (0, 0), (1, 1), None, True, programs_fn=freeze_sweep("pair", (30, 800), (40, 60), "pairsweep", victims=(0, 1)))]),
     "C05": dict(mc=MC("timed", "async", thorough=["t_async"], bounded=["t_timed"]) + MCA("2p"), spec_l1l0=True, runs=[R("general", (250, 4000), (3, 6), "C05", True), R("timed", (200, 3000), (3, 6), "C05", True),
-                      R("async", (200, 3000), (3, 6), "C05", True), R("chain", (100, 2000), (2, 6), "C05", True)]),
+                      R("async", (200, 3000), (3, 6), "C05", True), R("chain", (100, 2000), (2, 6), "C05", True),
+                      R("discrace", (0, 0), (1, 1), "C05", True, programs_fn=freeze_sweep("discrace", (12, 200), (45, 60), "discrace05"))]),
     "C07": dict(mc=MC("sync", "async", thorough=["t_sync", "t_async"]),
                 runs=[R("hbfreeze", (0, 0), (1, 1), None, False, programs_fn=hbfreeze_programs, rawmon=[("HBMonitor", "HBMonitor.cfg")]),
                       R("fdropfreeze", (0, 0), (1, 1), None, False, programs_fn=freeze_sweep("fdrop", (12, 150), (30, 45), "fdropfreeze"),
@@ -142,7 +144,8 @@ PLANS = {
                       R("timed", (100, 3000), (3, 6), None, False, rawmon=[("HBMonitor", "HBMonitor.cfg")])],
                 assume=["happens-before is computed from the orderings actually passed to the atomics on sequentially consistent interleavings; stale relaxed reads of weaker-than-SC executions are not enumerated"]),
     "C08": dict(mc=MC("sync", thorough=["t_sync"]), runs=[R("capacity", (300, 5000), (3, 6), "C08", True), R("general", (150, 2000), (3, 5), "C08", True)]),
-    "C10": dict(mc=MC("sync", "timed", "closeclone", thorough=["t_sync"], bounded=["t_timed"]), spec_l2l1=True, runs=[R("close", (300, 5000), (3, 6), "C10", True), R("general", (150, 2000), (3, 5), "C10", True)]),
+    "C10": dict(mc=MC("sync", "timed", "closeclone", thorough=["t_sync"], bounded=["t_timed"]), spec_l2l1=True, runs=[R("close", (300, 5000), (3, 6), "C10", True), R("general", (150, 2000), (3, 5), "C10", True),
+                      R("discrace", (0, 0), (1, 1), "C10", True, programs_fn=freeze_sweep("discrace", (12, 200), (45, 60), "discrace10"))]),
     "C11": dict(mc=MC("handles", "closeclone", thorough=["t_handles"]), runs=[R("hseq", (0, 0), (1, 1), "C11", True, programs_fn=handle_programs, own_all=True),
                                         R("disconnect", (300, 5000), (3, 6), "C11", True), R("general", (150, 2000), (3, 5), "C11", True),
                                         R("discrace", (0, 0), (1, 1), "C11", True, own_all=True, programs_fn=freeze_sweep("discrace", (16, 200), (45, 60), "discrace11"))]),
